@@ -1,21 +1,57 @@
 (** The two repair parameters of the hook model ([chk20], [ret]) and the shape facts the model relies on, read off
     the Go source by tools/gotocoq/ics20hook (Gen/Ics20HookGen.v, regenerated on every run).
 
-    The translator emits the statements of Keeper.OnRecvPacket that matter as a list ([src_hook]); guards are
-    classified by data flow (which call produced the tested value), not by their text, so renaming a variable,
-    writing `20` for common.AddressLength, deleting the dead `IBCDenom` error branch or reordering the early-return
-    guards re-checks, while a `return nil`, a dropped guard, a conversion on the parent context, a write() before the
-    error test, a different amount / denomination / receiver in the message does not. *)
+    The translator EXECUTES Keeper.OnRecvPacket, the callbacks of IBCMiddleware and of ibc.Module symbolically
+    (closures and same-package helpers inlined with parameter substitution, nil-ness of error values tracked per path,
+    `switch` / if-else / early-return / nested forms all reduced to tests) and emits the decision TREE of each
+    ([src_hook], [src_mw_recv], ...); tests are classified by data flow (which call produced the tested value), not by
+    their text.  So renaming, writing `20` for common.AddressLength, deleting the dead `IBCDenom` error branch,
+    reordering the early-return guards, moving the failure epilogue into a closure or a helper, splitting the hook
+    into a decoding and a converting function that return errors, taking the cache context later, a `switch` in the
+    middleware ... re-check, while a `return nil`, a dropped guard, a conversion on the parent context, a write() before
+    the error test, a different amount / denomination / receiver in the message, a hook called after a failed transfer
+    does not. *)
 From Coq Require Import List Bool Arith.
 From Teleport Require Import Base.Bytes Base.Outcome Model.Ics20 Gen.Ics20HookGen.
 Import ListNotations.
 
-Definition ret_eqb (a b : src_return) : bool :=
-  match a, b with SrcAck, SrcAck | SrcNil, SrcNil | SrcOther, SrcOther => true | _, _ => false end.
+Definition ret_code (r : src_return) : nat :=
+  match r with SrcAck => 0 | SrcNil => 1 | SrcHook => 2 | SrcAppErr => 3 | SrcKeeperErr => 4 | SrcOther => 5 end.
+Definition ret_eqb (a b : src_return) : bool := Nat.eqb (ret_code a) (ret_code b).
 
 Definition guard_code (g : src_guard) : nat :=
-  match g with GDecode => 0 | GAmount => 1 | GRecvLen => 2 | GDenomErr => 3 | GNotRegistered => 4 | GConvertErr => 5 | GOther => 6 end.
+  match g with
+  | GDecode => 0 | GAmount => 1 | GRecvLen => 2 | GDenomErr => 3 | GNotRegistered => 4 | GConvertErr => 5 | GOther => 6
+  | GAckNotSuccess => 7 | GAppErr => 8 | GKeeperErr => 9
+  end.
 Definition guard_eqb (a b : src_guard) : bool := Nat.eqb (guard_code a) (guard_code b).
+
+Fixpoint tree_eqb (a b : src_tree) : bool :=
+  match a, b with
+  | TRet r, TRet r' => ret_eqb r r'
+  | TGuard g f o, TGuard g' f' o' => guard_eqb g g' && tree_eqb f f' && tree_eqb o o'
+  | TConvert c m t, TConvert c' m' t' => Bool.eqb c c' && Bool.eqb m m' && tree_eqb t t'
+  | TWrite t, TWrite t' => tree_eqb t t'
+  | _, _ => false          (* TOther equals nothing, not even itself *)
+  end.
+
+(** the statements of a function whose decision tree is a COMB: every failed test returns at once *)
+Inductive src_stmt :=
+| SGuard (g : src_guard) (r : src_return)
+| SConvert (on_cache_ctx msg_from_packet : bool)
+| SWrite
+| SReturn (r : src_return)
+| SOther.
+
+Fixpoint flatten (t : src_tree) : list src_stmt :=
+  match t with
+  | TRet r => [SReturn r]
+  | TGuard g (TRet r) ok => SGuard g r :: flatten ok
+  | TGuard _ _ _ => [SOther]           (* something happens on the failure side before it returns *)
+  | TConvert c m t' => SConvert c m :: flatten t'
+  | TWrite t' => SWrite :: flatten t'
+  | TOther => [SOther]
+  end.
 
 (** the leading early-return guards and what follows them *)
 Fixpoint split_guards (l : list src_stmt) : list (src_guard * src_return) * list src_stmt :=
@@ -56,21 +92,36 @@ Definition shape_of (l : list src_stmt) : option (bool * src_return) :=
     returns the (never reassigned) acknowledgement parameter; `return nil` makes the model return nil; anything else
     is outside the model (the obligation then fails on [src_shape_ok]) *)
 Definition src_ret : ack -> option ack :=
-  match shape_of src_hook with
+  match shape_of (flatten src_hook) with
   | Some (_, SrcAck) => if src_hook_ack_reassigned then (fun _ => None) else (fun a => Some a)
   | _ => (fun _ => None)
   end.
 
 Definition src_chk20 : bool :=
-  match shape_of src_hook with Some (c, _) => c | None => false end.
+  match shape_of (flatten src_hook) with Some (c, _) => c | None => false end.
 
-(** the hook has the normal form; the denomination is IBCDenom(destination port, destination channel, data.Denom);
-    write() is called exactly once; the middleware is "wrapped app; error ack -> return it; else keeper hook";
-    OnTimeoutPacket inherited; OnAcknowledgementPacket = wrapped app then the keeper's no-op *)
+(** what the other callbacks must be:
+    IBCMiddleware.OnRecvPacket: the wrapped module's acknowledgement; not successful -> return it, else the keeper hook
+    on (ctx, packet, that acknowledgement);
+    IBCMiddleware.OnAcknowledgementPacket: the wrapped module's callback, its error returned, then the keeper's;
+    ibc.Module: every callback is the wrapped application's (returning the error value = returning it when non-nil and
+    nil otherwise) *)
+Definition expected_mw_recv : src_tree := TGuard GAckNotSuccess (TRet SrcAck) (TRet SrcHook).
+Definition expected_mw_ack : src_tree :=
+  TGuard GAppErr (TRet SrcAppErr) (TGuard GKeeperErr (TRet SrcKeeperErr) (TRet SrcNil)).
+Definition expected_module_recv : src_tree := TRet SrcAck.
+Definition expected_module_err : src_tree := TGuard GAppErr (TRet SrcAppErr) (TRet SrcNil).
+
+(** the hook has the normal form; the denomination is IBCDenom(destination port, destination channel, data.Denom); the
+    other callbacks are the expected ones; OnTimeoutPacket of the middleware is inherited; the keeper's
+    OnAcknowledgementPacket is `return nil` *)
 Definition src_shape_ok : bool :=
-  match shape_of src_hook with Some _ => true | None => false end &&
-  src_hook_denom_from_dest && Nat.eqb src_hook_write_calls 1 &&
-  src_mw_recv_shape && src_mw_timeout_inherited && src_mw_ack_shape && src_keeper_ack_noop.
+  match shape_of (flatten src_hook) with Some _ => true | None => false end &&
+  src_hook_denom_from_dest &&
+  tree_eqb src_mw_recv expected_mw_recv && tree_eqb src_mw_ack expected_mw_ack && src_mw_timeout_inherited &&
+  src_keeper_ack_noop &&
+  tree_eqb src_module_recv expected_module_recv && tree_eqb src_module_ack expected_module_err &&
+  tree_eqb src_module_timeout expected_module_err.
 
 Section Source.
   Variable state : Type.
@@ -117,4 +168,17 @@ Example shape_of_harmful :
             SConvert true true; SGuard GConvertErr SrcAck; SWrite; SReturn SrcAck] = None /\
   shape_of [SGuard GDecode SrcAck; SGuard GAmount SrcAck; SGuard GRecvLen SrcAck; SGuard GNotRegistered SrcAck;
             SConvert true false; SGuard GConvertErr SrcAck; SWrite; SReturn SrcAck] = None.
+Proof. repeat split; reflexivity. Qed.
+
+(** [flatten]: a comb becomes the guard list; an effect on a failure side (write() before the error test in the nested
+    form) or a test whose failure does not return does not *)
+Example flatten_comb :
+  flatten (TGuard GDecode (TRet SrcAck) (TGuard GAmount (TRet SrcAck) (TGuard GRecvLen (TRet SrcAck) (TGuard GDenomErr (TRet SrcAck)
+            (TGuard GNotRegistered (TRet SrcAck) (TConvert true true (TGuard GConvertErr (TRet SrcAck) (TWrite (TRet SrcAck)))))))))
+  = shape_head /\
+  shape_of (flatten (TGuard GDecode (TRet SrcAck) (TGuard GAmount (TRet SrcAck) (TGuard GNotRegistered (TRet SrcAck)
+            (TConvert true true (TGuard GConvertErr (TWrite (TRet SrcAck)) (TWrite (TRet SrcAck)))))))) = None /\
+  shape_of (flatten (TGuard GDecode (TRet SrcAck) (TGuard GAmount (TRet SrcAck) (TGuard GNotRegistered (TRet SrcAck)
+            (TConvert true true (TWrite (TGuard GConvertErr (TRet SrcAck) (TRet SrcAck)))))))) = None /\
+  tree_eqb TOther TOther = false /\ tree_eqb (TRet SrcHook) expected_mw_recv = false.
 Proof. repeat split; reflexivity. Qed.
